@@ -18,7 +18,7 @@ ClOf(vs, async, pv, cq) == [nodes |-> [i \in Node |-> NC(i, \E k \in DOMAIN vs :
 NoActors == [Tick |-> {}, Campaign |-> {}, Propose |-> {}, ProposeConfChange |-> {}, ReadIndex |-> {},
          Crash |-> {}, TransferLeader |-> {}, ForgetLeader |-> {}, ReportUnreachable |-> {}, ReportSnapshot |-> {}]
 NoBudget == [Tick |-> 0, Campaign |-> 0, Propose |-> 0, ProposeConfChange |-> 0, ReadIndex |-> 0, Crash |-> 0, Dup |-> 0, Drop |-> 0,
-         Snapshot |-> 0, Compact |-> 0, TransferLeader |-> 0, ForgetLeader |-> 0, ReportUnreachable |-> 0, ReportSnapshot |-> 0, Defer |-> 0,
+         Snapshot |-> 0, Compact |-> 0, TransferLeader |-> 0, ForgetLeader |-> 0, ReportUnreachable |-> 0, ReportSnapshot |-> 0, Defer |-> 0, Atomic |-> 0,
          Term |-> 1, Index |-> 3, Net |-> 4]
 PszF == {3}
 NoCCsF == {}
@@ -26,36 +26,52 @@ NoCCsF == {}
 \* --- reads (C11): two leaderships, a read at either node, lost messages ---------------------------
 ClReads == ClOf(<<1, 2>>, FALSE, FALSE, FALSE)
 ActorsReads == [NoActors EXCEPT !.Campaign = {1, 2}, !.Propose = {1, 2}, !.ReadIndex = {1, 2}]
-BoundReads == [NoBudget EXCEPT !.Campaign = 2, !.Propose = 1, !.ReadIndex = 1, !.Drop = 1, !.Term = 2, !.Index = 4]
+BoundReads == [NoBudget EXCEPT !.Atomic = 1, !.Campaign = 2, !.Propose = 1, !.ReadIndex = 1, !.Drop = 1, !.Term = 2, !.Index = 4]
+\* one leadership, complete exploration
+ActorsReads1 == [NoActors EXCEPT !.Campaign = {1}, !.Propose = {1}, !.ReadIndex = {1, 2}]
+BoundReads1 == [NoBudget EXCEPT !.Atomic = 1, !.Campaign = 1, !.Propose = 1, !.ReadIndex = 1, !.Drop = 1, !.Term = 1, !.Index = 3]
 
 \* --- membership (C10): three nodes, node 3 is removed / demoted / re-added through joint configs ---
 ClConf == ClOf(<<1, 2, 3>>, FALSE, FALSE, FALSE)
 CCsConf == {[trans |-> "auto", changes |-> <<[t |-> "r", id |-> 3]>>],
             [trans |-> "implicit", changes |-> <<[t |-> "l", id |-> 3]>>],
-            [trans |-> "explicit", changes |-> <<[t |-> "r", id |-> 2], [t |-> "r", id |-> 3]>>]}
+            [trans |-> "explicit", changes |-> <<[t |-> "r", id |-> 2], [t |-> "r", id |-> 3]>>],
+            [trans |-> "auto", changes |-> <<>>]}
 ActorsConf == [NoActors EXCEPT !.Campaign = {1}, !.ProposeConfChange = {1}, !.Propose = {1}]
-BoundConf == [NoBudget EXCEPT !.Campaign = 1, !.ProposeConfChange = 2, !.Propose = 0, !.Index = 5, !.Net = 4]
+BoundConf == [NoBudget EXCEPT !.Atomic = 1, !.Campaign = 1, !.ProposeConfChange = 2, !.Propose = 0, !.Index = 5, !.Net = 4]
 
 \* --- snapshots (C09): the follower misses appends, the leader compacts, a snapshot travels -----------
-ClSnap == ClOf(<<1, 2>>, FALSE, FALSE, FALSE)
-ActorsSnap == [NoActors EXCEPT !.Campaign = {1}, !.Propose = {1}, !.ReportSnapshot = {1}]
-BoundSnap == [NoBudget EXCEPT !.Campaign = 1, !.Propose = 1, !.Drop = 2, !.Dup = 1, !.Snapshot = 1, !.Compact = 1, !.ReportSnapshot = 1,
-                          !.Index = 3, !.Net = 4]
+\* (three voters: with two, nothing commits without the follower, so it never needs a snapshot)
+ClSnap == ClOf(<<1, 2, 3>>, FALSE, FALSE, FALSE)
+ActorsSnap == [NoActors EXCEPT !.Campaign = {1}, !.Propose = {1}, !.ReportSnapshot = {1}, !.Tick = {1}]
+BoundSnap == [NoBudget EXCEPT !.Atomic = 1, !.Campaign = 1, !.Propose = 0, !.Drop = 2, !.Dup = 0, !.Snapshot = 1, !.Compact = 1, !.ReportSnapshot = 1,
+                          !.Tick = 1, !.Index = 2, !.Net = 5]
 
 \* --- timers (C17): pre-vote + check-quorum, elections come from ticks only -------------------------
 ClTick == ClOf(<<1, 2>>, FALSE, TRUE, TRUE)
 ActorsTick == [NoActors EXCEPT !.Tick = {1, 2}, !.Crash = {1}]
-BoundTick == [NoBudget EXCEPT !.Tick = 7, !.Drop = 1, !.Term = 2, !.Index = 3]
+BoundTick == [NoBudget EXCEPT !.Atomic = 1, !.Tick = 7, !.Drop = 1, !.Term = 2, !.Index = 3]
 
 \* --- leadership transfer ------------------------------------------------------------------------
 ClXfer == ClOf(<<1, 2>>, FALSE, FALSE, FALSE)
 ActorsXfer == [NoActors EXCEPT !.Campaign = {1}, !.Propose = {1, 2}, !.TransferLeader = {1, 2}]
-BoundXfer == [NoBudget EXCEPT !.Campaign = 1, !.Propose = 1, !.TransferLeader = 1, !.Drop = 1, !.Term = 2, !.Index = 4]
+BoundXfer == [NoBudget EXCEPT !.Atomic = 1, !.Campaign = 1, !.Propose = 1, !.TransferLeader = 1, !.Drop = 1, !.Term = 2, !.Index = 4]
 
 \* --- flow control (C16): one message in flight, tiny messages --------------------------------------
 ClFlow == [nodes |-> [i \in Node |-> [NC(i, TRUE, FALSE, FALSE, FALSE) EXCEPT !.maxInflightMsgs = 1, !.maxSizePerMsg = 8,
                                                                                  !.maxUncommittedSize = 5]],
            conf |-> ConfOf(<<1, 2>>)]
 ActorsFlow == [NoActors EXCEPT !.Campaign = {1}, !.Propose = {1}]
-BoundFlow == [NoBudget EXCEPT !.Campaign = 1, !.Propose = 3, !.Drop = 1, !.Index = 5, !.Net = 4]
+BoundFlow == [NoBudget EXCEPT !.Atomic = 1, !.Campaign = 1, !.Propose = 3, !.Drop = 1, !.Index = 5, !.Net = 4]
+
+\* --- reachability probes: each names the situation its family is about; a cfg MCF_<family>_probe.cfg
+\* checks the NEGATION as an invariant and must report it violated (TLC's shortest path to it), which
+\* shows the family instance is not vacuous
+Probe_reads == ~(act.name = "Ready" /\ act.rd.has /\ Len(act.rd.readStates) > 0 /\ act.node = 2)
+\* a joint configuration was entered and left again (automatically)
+Probe_conf == ~(\E i \in Node : Up(i) /\ node[i].cfg.outgoing = <<>> /\ node[i].cfg.learners = <<3>> /\ node[i].role = "L")
+Probe_snap == ~(\E i \in Node : Up(i) /\ node[i].usnap.has /\ node[i].usnap.index > 1)
+Probe_tick == ~(\E i \in Node : Up(i) /\ node[i].role = "L" /\ node[i].term = 2)
+Probe_xfer == ~(Up(2) /\ node[2].role = "L")
+Probe_flow == ~(\E i \in Node : Up(i) /\ node[i].role = "L" /\ act.name = "Propose" /\ act.ret = "dropped")
 =============================================================================
